@@ -108,3 +108,80 @@ Theorem C12_float64_refuted : exists m, wf m /\ default_named m /\
   forall derive, exists d m', save "2.0.2" m = Ok d /\ load r32 derive d = Ok m' /\ save "2.0.2" m' <> Ok d.
 Proof. exact float64_refuted. Qed.
 Print Assumptions C12_float64_refuted.
+
+(* ====================================================================== on the REAL State model (Compose/)
+   The five store-interface hypotheses of C12_self_consistent (the first being "reads are never stale":
+   get s n = eval (vals s) n) are discharged: the store is a State object of State/StateModel.v satisfying the C01 invariant
+   [Good] ([gstate]; every State object reachable from [init_store] does), variables are addressed by name through [names]
+   (= sorted_variables_names: distinct, one per node), [s_get] / [s_set] / [s_clone] are State.__getitem__ / __setitem__ /
+   clone of the model of the code as it is, [s_eval] is C01's from-scratch evaluation.  What is left: [WF g] (C15) and the
+   four graph-shape conditions on the population variables and their priors (checked on every shipped DAG by the harness). *)
+From Leaspy Require Import State.StateModel State.StateNow State.StateExec Compose.StateApi Compose.StateEndOfFit
+                           Compose.StateEndOfFitProofs Compose.ComposeExamples.
+
+(** The five hypotheses hold of the real State model. *)
+Theorem C12_store_interface_discharged :
+  forall (V : Type) (g : graph V) (W : WF g) (names : list string), NoDup names -> List.length names = gn g ->
+    (forall s n, s_get V g names s n = s_eval V g names (s_vals V g names s) n) /\
+    (forall s n v m, s_indep V g names n = true ->
+       s_vals V g names (s_set V g W names n v s) m = EndOfFitProofs.upd (option V) (s_vals V g names s) n v m) /\
+    (forall s m, s_vals V g names (s_clone V g s) m = s_vals V g names s m) /\
+    (forall a n, s_indep V g names n = true -> s_eval V g names a n = a n) /\
+    (forall a a' n, (forall m, a m = a' m) -> s_eval V g names a n = s_eval V g names a' n).
+Proof. exact store_interface. Qed.
+Print Assumptions C12_store_interface_discharged.
+
+(** C12_self_consistent on the real State model: no store hypothesis left. *)
+Theorem C12_self_consistent_state :
+  forall (V : Type) (g : graph V) (W : WF g) (names : list string), NoDup names -> List.length names = gn g ->
+  forall (stat : prior_stat -> string -> (string -> option V) -> option V) (prior_params : string -> list string) (pops : list string),
+    NoDup pops ->
+    (forall pp, In pp pops -> s_indep V g names pp = true) ->
+    (forall k pp f f', (forall q, In q (prior_params pp) -> f q = f' q) -> stat k pp f = stat k pp f') ->
+    (forall pp q, In pp pops -> In q (prior_params pp) -> s_indep V g names q = true /\ ~ In q pops) ->
+    forall s : gstate V g,
+      exists s', end_of_fit (option V) (gstate V g) (s_get V g names) (s_set V g W names) (s_clone V g) stat pops s = Some s' /\
+        (forall pp, In pp pops -> s_get V g names s' pp = stat UseMode pp (s_get V g names s)) /\
+        (forall q, s_indep V g names q = true -> ~ In q pops -> s_get V g names s' q = s_get V g names s q) /\
+        (forall nm, s_get V g names s' nm =
+                    s_eval V g names (target (option V) (gstate V g) (s_get V g names) stat (s_vals V g names) UseMode s pops) nm).
+Proof. exact self_consistent_state. Qed.
+Print Assumptions C12_self_consistent_state.
+
+(** ... and for the script as the code runs it — every assignment is made on the State object left by the READS of the
+    prior's parameters, which fill its cache (a read changes no non-derived value: C01_get_transparent) — on any State
+    object [s] of any store reachable from [init_store]. *)
+Theorem C12_self_consistent_reachable :
+  forall (V M IX : Type) (g : graph V) (sm : sem V M IX) (W : WF g), F_mix g sm ->
+  forall (names : list string), NoDup names -> List.length names = gn g ->
+  forall (stat : prior_stat -> string -> (string -> option V) -> option V) (prior_params : string -> list string) (pops : list string),
+    NoDup pops ->
+    (forall pp, In pp pops -> s_indep V g names pp = true) ->
+    (forall k pp f f', (forall q, In q (prior_params pp) -> f q = f' q) -> stat k pp f = stat k pp f') ->
+    (forall pp q, In pp pops -> In q (prior_params pp) -> s_indep V g names q = true /\ ~ In q pops) ->
+    forall (S : StateModel.store V) (k : nat) (s : state V),
+      Reach V g M IX sm S -> nth_error S k = Some s ->
+      exists gs : gstate V g, proj1_sig gs = s /\
+        let s' := end_of_fit_cached V g W names stat prior_params pops gs in
+        (forall pp, In pp pops -> s_get V g names s' pp = stat UseMode pp (s_get V g names gs)) /\
+        (forall q, s_indep V g names q = true -> ~ In q pops -> s_get V g names s' q = s_get V g names gs q) /\
+        (forall nm, s_get V g names s' nm =
+                    s_eval V g names (target (option V) (gstate V g) (s_get V g names) stat (s_vals V g names) UseMode gs pops) nm).
+Proof. exact self_consistent_reach. Qed.
+Print Assumptions C12_self_consistent_reachable.
+
+(** Non-vacuity on the 7-node graph of Compose/ComposeExamples.v, State object 0 of the store left by a 14-operation past:
+    the hypotheses hold; before the script log_v0 = 3, v0 = 6, model = 114; after it log_v0 = mode = log_v0_mean = 7,
+    v0 = 14, model = 122, the parameter untouched. *)
+Theorem C12_state_example :
+  WF Demo.g /\ (NoDup Demo.names /\ List.length Demo.names = gn Demo.g) /\
+  (NoDup Demo.pops /\ (forall pp, In pp Demo.pops -> s_indep xval Demo.g Demo.names pp = true) /\
+   (forall k pp f f', (forall q, In q (Demo.prior_params pp) -> f q = f' q) -> Demo.stat k pp f = Demo.stat k pp f') /\
+   (forall pp q, In pp Demo.pops -> In q (Demo.prior_params pp) -> s_indep xval Demo.g Demo.names q = true /\ ~ In q Demo.pops)) /\
+  (map (s_get xval Demo.g Demo.names Demo.gs0) ["log_v0_mean"; "log_v0"; "v0"; "model"]
+     = [Some (XS (AFin 7)); Some (XS (AFin 3)); Some (XS (AFin 6)); Some (XS (AFin 114))]%Z /\
+   map (s_get xval Demo.g Demo.names (end_of_fit_cached xval Demo.g Demo.g_wf Demo.names Demo.stat Demo.prior_params Demo.pops Demo.gs0))
+       ["log_v0_mean"; "log_v0"; "v0"; "model"]
+     = [Some (XS (AFin 7)); Some (XS (AFin 7)); Some (XS (AFin 14)); Some (XS (AFin 122))]%Z).
+Proof. exact (conj Demo.g_wf (conj Demo.names_ok (conj Demo.c12_hypotheses Demo.end_of_fit_runs))). Qed.
+Print Assumptions C12_state_example.
